@@ -13,7 +13,7 @@ from ..vloop import RES
 
 PID = "C10"
 RULE = (
-    "cases = timing configuration (initial-delay window from {0,0.01,0.1,1}, repetitions 0..4, base delay from "
+    "exhaustive: every script of bounded length over {start, stop, multicast/unicast Find, stop_announce, announce} x timing prefixes relative to the next library timer, for two timing configurations; random: cases = timing configuration (initial-delay window from {0,0.01,0.1,1}, repetitions 0..4, base delay from "
     "{0.01,0.05,0.2}, cyclic period from {none,0.5,1,2}, TTL from {1,3,inf}, collection timeout from {0,0.005,0.05}, "
     "request-response window, drawn uniform fractions), 1..3 instances with different ids and option runs, and a script "
     "of announcer start / stop (also twice) / announce / stop_announce / connection-lost / FindService datagrams "
